@@ -285,9 +285,9 @@ func cutoffs(bs []blockInfo) (rw int64, ro []int64) {
 }
 
 // cutoffWindow picks the read-only cut-off candidate whose window [min(c,rw), max(c,rw)) holds
-// the most differing samples; ok=false when no candidate differs from rw or none holds any.
+// the most differing samples; ok=false when no candidate differs from rw.
 func cutoffWindow(diff []triple, rw int64, ro []int64) (lo, hi, cut int64, ok bool) {
-	best := 0
+	best := -1
 	for _, c := range ro {
 		if c == rw {
 			continue
@@ -306,9 +306,36 @@ func cutoffWindow(diff []triple, rw int64, ro []int64) (lo, hi, cut int64, ok bo
 	return
 }
 
-func splitWindow(s []triple, lo, hi int64, ok bool) (in, out []triple) {
+// splitMasked separates the samples that lie in a range deleted with DB.Delete for their series:
+// with different cut-offs the two opens also keep different head tombstones (WAL tombstone
+// records whose Maxt is below the cut-off are skipped), so a deleted-but-still-stored sample
+// (out-of-order head data, see C01/C20) is masked on the side with the lower cut-off only.
+func splitMasked(s []triple, reqs map[string][][2]int64, enabled bool) (in, out []triple) {
 	for _, x := range s {
-		if ok && x.t >= lo && x.t < hi {
+		covered := false
+		if enabled {
+			for _, rg := range reqs[x.k] {
+				if x.t >= rg[0] && x.t <= rg[1] {
+					covered = true
+					break
+				}
+			}
+		}
+		if covered {
+			in = append(in, x)
+		} else {
+			out = append(out, x)
+		}
+	}
+	return
+}
+
+// splitWindow separates the samples inside the cut-off window; with a non-nil only set, a sample
+// must also be in that set (the read-write open's in-order head: out-of-order data is replayed
+// from the WBL without a cut-off, so the cut-off cannot explain its absence).
+func splitWindow(s []triple, lo, hi int64, ok bool, only map[triple]bool) (in, out []triple) {
+	for _, x := range s {
+		if ok && x.t >= lo && x.t < hi && (only == nil || only[x]) {
 			in = append(in, x)
 		} else {
 			out = append(out, x)
@@ -349,8 +376,15 @@ func run(c *core.Case) {
 	g.WCompact, g.WRestart = 16, 4
 	nops := 15 + r.IntN(56)
 	var extra []string
+	deleteReqs := map[string][][2]int64{}
 	apply := func(op tsdbhist.Op) bool {
 		c.Logf("op: %s", op)
+		if op.Kind == "delete" {
+			for _, si := range op.SeriesSel {
+				k := e.Series[si].String()
+				deleteReqs[k] = append(deleteReqs[k], [2]int64{op.Mint, op.Maxt})
+			}
+		}
 		if err := e.Apply(op); err != nil {
 			// not this property's subject (C01 reports failing operations); nothing to compare
 			c.Count("histories_aborted_by_failed_operation", 1)
@@ -614,10 +648,15 @@ func run(c *core.Case) {
 		}
 		all := append(append([]triple(nil), onlyRO...), onlyRW...)
 		lo, hi, cut, okW := cutoffWindow(all, cutRW, cutRO)
-		inRO, restRO := splitWindow(onlyRO, lo, hi, okW)
-		inRW, restRW := splitWindow(onlyRW, lo, hi, okW)
+		inRO, restRO := splitWindow(onlyRO, lo, hi, okW, nil)
+		inRW, restRW := splitWindow(onlyRW, lo, hi, okW, inOrderHead)
+		// tombstone records between the cut-offs: visible on the side with the higher cut-off only
+		mRO, r2 := splitMasked(restRO, deleteReqs, okW && cut > cutRW)
+		inRO, restRO = append(inRO, mRO...), r2
+		mRW, r3 := splitMasked(restRW, deleteReqs, okW && cut < cutRW)
+		inRW, restRW = append(inRW, mRW...), r3
 		if len(inRO)+len(inRW) > 0 {
-			c.Violatef("readonly-wal-cutoff-from-last-block-differs-from-readwrite", "%s: read-only and read-write open disagree: %d samples only from the read-only open (%s ), %d only from the read-write open (%s )\nclassification: the read-only open cuts WAL replay at %d (MaxTime of the block with the largest MinTime), the read-write open at %d (largest MaxTime over blocks that are not from out-of-order/stale-series/selected-series compactions); these differing samples have timestamps between the two\n%s", what, len(inRO), briefTriples(inRO), len(inRW), briefTriples(inRW), cut, cutRW, describe())
+			c.Violatef("readonly-wal-cutoff-from-last-block-differs-from-readwrite", "%s: read-only and read-write open disagree: %d samples only from the read-only open (%s ), %d only from the read-write open (%s )\nclassification: the read-only open cuts WAL replay at %d (MaxTime of the block with the largest MinTime), the read-write open at %d (largest MaxTime over blocks that are not from out-of-order/stale-series/selected-series compactions); these differing samples have timestamps between the two, or lie in ranges deleted with DB.Delete and are masked only where the tombstone record (Maxt between the cut-offs) is still replayed\n%s", what, len(inRO), briefTriples(inRO), len(inRW), briefTriples(inRW), cut, cutRW, describe())
 		}
 		if len(restRO)+len(restRW) == 0 {
 			return false
@@ -713,8 +752,8 @@ func run(c *core.Case) {
 		c.Violatef("flushwal-failed", "FlushWAL: %v although the read-write open holds %d samples outside blocks\n%s", ferr, headOnly, describe())
 	case len(spurious) > 0 || len(missing) > 0:
 		lo, hi, cut, okW := cutoffWindow(append(append([]triple(nil), spurious...), missing...), cutRW, cutRO)
-		inSp, restSp := splitWindow(spurious, lo, hi, okW)
-		inMi, restMi := splitWindow(missing, lo, hi, okW)
+		inSp, restSp := splitWindow(spurious, lo, hi, okW, nil)
+		inMi, restMi := splitWindow(missing, lo, hi, okW, inOrderHead)
 		head := fmt.Sprintf("block written by FlushWAL (%d blocks, %d samples)", nblocks, len(flushed))
 		if len(inSp)+len(inMi) > 0 {
 			c.Violatef("readonly-wal-cutoff-from-last-block-differs-from-readwrite", "%s: %d samples that the read-write open does not return (%s ), %d samples the read-write open returns from outside its blocks are missing (%s )\nclassification: FlushWAL cuts WAL replay at %d (MaxTime of the block with the largest MinTime), the read-write open at %d; these differing samples have timestamps between the two\n%s", head, len(inSp), briefTriples(inSp), len(inMi), briefTriples(inMi), cut, cutRW, describe())
